@@ -3,9 +3,9 @@ CONSTANTS
   JNo172 = FALSE
   JAllowFallsThrough = FALSE
   TBlockInverted = FALSE
-  TNo172 = FALSE
-  Devs = {"ipv6-internal-destination-routed", "unsupported-allow-item-raises"}
+  TNo172 = TRUE
+  Devs = {"names-never-resolved", "ipv6-literal-cut-at-colon", "list-items-compared-as-typed"}
   Tier = "quick"
-  Impl = "java"
+  Impl = "ts"
 SPECIFICATION Spec
 CHECK_DEADLOCK FALSE
